@@ -352,7 +352,7 @@ def run(ctx):
                         "single-label tasks: predicted vocabulary scores of an item sum to <= 1; clip-level tasks use clips without sound events"]
     ctx.must_monitors += ["task_results", "metric_lists", "metric_values", "score_aggregation", "permutation", "save_load"]
     ctx.must_reach += [f"evaluation/tasks/{t}.py::{t}" for t in E.TASKS] + [
-        f"evaluation/metrics.py::{m}" for m in ("balanced_accuracy", "accuracy", "top_3_accuracy", "mean_average_precision", "average_precision", "jaccard", "true_class_probability")]
+        f"?evaluation/metrics.py::{m}" for m in ("balanced_accuracy", "accuracy", "top_3_accuracy", "mean_average_precision", "average_precision", "jaccard", "true_class_probability")]
     # directed: single-tag vocabulary (open finding), empty clip in sound_event_classification
     for task in E.TASKS:
         spec = E.random_case(rng, task, n_vocab=1, n_clips=3)
